@@ -600,6 +600,12 @@ FIND_PACKET:
 			}
 		}
 	}
+	if r.ci.CaptureLength > r.ci.Length {
+		return fmt.Errorf("capture length exceeds original packet length: %d > %d", r.ci.CaptureLength, r.ci.Length)
+	}
+	if uint32(r.ci.CaptureLength) > r.currentBlock.length {
+		return fmt.Errorf("capture length exceeds block length: %d > %d", r.ci.CaptureLength, r.currentBlock.length)
+	}
 	if !r.options.WantMixedLinkType {
 		if r.ifaces[r.ci.InterfaceIndex].LinkType != r.linkType {
 			if err := r.discard(int(r.currentBlock.length)); err != nil {
